@@ -238,7 +238,10 @@ Fixpoint wr_at (k : nat) (n : nat) (sp : srcp) (bd : body) (lvl : nat) (path : l
    - elements at coordinates a does not present are the same, none added, none removed;
    - an offered interior element the body left alone is the same;
    - an offered coordinate that was absent before is absent after unless something non-default
-     is now stored under it. *)
+     is now stored under it;
+   - at the leaf rank an offered coordinate that had an element before (an explicit default the
+     body left alone, or a value the body set back to the default) keeps an element only if its
+     value is not the default ("coordinates the body left at the default leave no element"). *)
 Fixpoint raw_ok (k : nat) (n : nat) (dz : Z) (sp : srcp) (bd : body) (rb : list Z -> bool) (lvl : nat)
          (path : list Z)
          (aes : fib) (zb za : fib) : bool :=
@@ -269,7 +272,7 @@ Fixpoint raw_ok (k : nat) (n : nat) (dz : Z) (sp : srcp) (bd : body) (rb : list 
            if desc then raw_ok k' n dz sp bd rb (S lvl) p (sub_of (snd cb)) (sub_of tb) [] else leaf
          | Some tb, Some ta =>
            if desc then raw_ok k' n dz sp bd rb (S lvl) p (sub_of (snd cb)) (sub_of tb) (sub_of ta)
-           else leaf || refb || tree_eqb tb ta
+           else (leaf && negb (is_empty dz ta)) || refb || tree_eqb tb ta
          end) off
   end.
 
